@@ -3,14 +3,19 @@ from speaker_common import run_speaker
 
 
 def main(run):
-    run_speaker(run, ["C15_ExportAsIfFresh", "C15_AddPathAsIfFresh", "C15_LocRibAsIfFresh", "C02_AdjInExact"], policy=True, design=None)
+    run_speaker(run, ["C15_ExportAsIfFresh", "C15_AddPathAsIfFresh", "C15_LocRibAsIfFresh", "C02_AdjInExact"], policy=True, design=None,
+                pairs=({"rr": '{"dir"}', "addpath": '{"dir"}'} if run.tier != "thorough" else
+                       {g: '{"dir", "both"}' for g in ("ebgp3", "mixed", "rr", "addpath")}))
 
 
 RULE = ("schedules = SpeakerGen.tla with WithPolicy: route events interleaved with SetImp/SetExp over the closed "
-        "policy family {acc, reject x1, set MED 77 on x1, prepend twice on x1}, soft resets in/out/both towards one "
+        "policy family {acc, reject x1, set MED 77 on x1, prepend twice on x1, reject x1 by AS_PATH, add community tag 1 / 2 on x1}, "
+        "soft resets in/out/both towards one "
         "neighbour or all, and ROUTE-REFRESH from a neighbour; executed on the real BgpServer; TLC requires, whenever "
         "every stored route / neighbour has been (re)evaluated under the CURRENT policy, that the Loc-RIB listing and "
         "each neighbour's decoded view equal the fresh evaluation. non-trivial = distinct clean states with a non-accept "
-        "policy in force and an established neighbour")
+        "policy in force and an established neighbour. In addition SpeakerPairs.tla enumerates EVERY ordered pair (old policy, "
+        "new policy) x direction (x reset flavour in the thorough tier) on one skeleton: old in force, route changes, new + reset, "
+        "reset again, more changes")
 ASSUMPTIONS = ["policy family is closed and small (conditions on one prefix); the general policy language is C10",
                "locally injected routes are kept off the prefix the policies act on"]
